@@ -39,6 +39,8 @@ def cmd_func(args):
                 if not good or args.verbose:
                     print('  %-8s %-6s %5.2fs %s  (line %d)%s' % (r['status'], r['solver'], r['time'], o.name, o.line,
                                                                  '' if good else '   <== FAILED'))
+                    if not good:
+                        print('      tried:', r['tried'])
                     if not good and args.keep:
                         print('      query:', r['path'])
             print('%-60s %d/%d obligations  %.1fs' % (short_fn(prog, n), ok, len(obls), time.time() - t0))
